@@ -34,6 +34,7 @@ type Program struct {
 	allocChecks  map[string]bool
 	allocBounds  map[string]int64
 	idCache      map[*ssa.Function]string
+	implCache    map[string][]types.Type
 	specPrelude  string
 	mu           sync.Mutex
 }
@@ -59,7 +60,7 @@ func LoadProgram(dir, specDir string) (*Program, error) {
 	p := &Program{Dir: dir, SpecDir: specDir, Prog: prog, Funcs: map[string]*ssa.Function{}, FuncFile: map[string]string{},
 		Contracts: NewContracts(), pkgNames: map[string]bool{}, pkgsByName: map[string][]*types.Package{}, tags: map[string]int{},
 		tagTypes: map[int]types.Type{}, callOrdinals: map[*ssa.Function]map[*ssa.CallCommon]int{}, allocChecks: map[string]bool{},
-		allocBounds: map[string]int64{}, idCache: map[*ssa.Function]string{}}
+		allocBounds: map[string]int64{}, idCache: map[*ssa.Function]string{}, implCache: map[string][]types.Type{}}
 	for _, sp := range spkgs {
 		if sp != nil {
 			p.Pkgs = append(p.Pkgs, sp)
@@ -302,6 +303,60 @@ func (p *Program) allocBound(id string) int64 {
 }
 
 func (p *Program) SpecPrelude() string { return p.specPrelude }
+
+// implementers: dynamic types (T or *T) of repository packages whose method set implements interface it.
+// Used for the closed-world assumption on values of interfaces declared in the repository.
+func (p *Program) implementers(it types.Type) []types.Type {
+	key := typeKey(it)
+	p.mu.Lock()
+	if r, ok := p.implCache[key]; ok {
+		p.mu.Unlock()
+		return r
+	}
+	p.mu.Unlock()
+	iface, ok := it.Underlying().(*types.Interface)
+	if !ok {
+		return nil
+	}
+	var out []types.Type
+	for _, tp := range p.Prog.AllPackages() {
+		sc := tp.Pkg.Scope()
+		for _, n := range sc.Names() {
+			tn, ok := sc.Lookup(n).(*types.TypeName)
+			if !ok || tn.IsAlias() {
+				continue
+			}
+			t := tn.Type()
+			if _, isI := t.Underlying().(*types.Interface); isI {
+				continue
+			}
+			if nt, ok := t.(*types.Named); ok && nt.TypeParams().Len() > 0 {
+				continue
+			}
+			if types.Implements(t, iface) {
+				out = append(out, t)
+			}
+			if types.Implements(types.NewPointer(t), iface) {
+				out = append(out, types.NewPointer(t))
+			}
+		}
+	}
+	p.mu.Lock()
+	p.implCache[key] = out
+	p.mu.Unlock()
+	return out
+}
+
+func (p *Program) isRepoInterface(t types.Type) bool {
+	n, ok := t.(*types.Named)
+	if !ok || n.Obj().Pkg() == nil {
+		return false
+	}
+	if _, isI := n.Underlying().(*types.Interface); !isI {
+		return false
+	}
+	return strings.HasPrefix(n.Obj().Pkg().Path(), modulePath)
+}
 
 // goTargetFuncs: functions started with a go statement anywhere in the repository.
 func (p *Program) goTargetFuncs() map[*ssa.Function]bool {
